@@ -28,6 +28,7 @@ def gen_cases(run: Run, n: int):
         g.leak_p = 0.0 if len(cases) % 2 == 0 else 0.15
         ins, outs = g.program()
         cases.append(B.Case(ins, outs, rng.random() < 0.3, {"legal": g.leak_p == 0.0}))
+        cases[-1].meta["snapshot_problems"] = B.snapshot_problems(g.snapshots)
     # scope-tree skeletons (shared with C04): a value (every 2nd time an initializer) created in one scope and used in others
     from harness import c04
     sks = list(c04.enumerate_skeletons(3, 1))
@@ -76,6 +77,9 @@ def run(run: Run) -> int:
     distinct, n_exec, n_bad = set(), 0, 0
     for i, c in enumerate(cases):
         out_hist[c.impl.split(" ")[1] if c.impl.startswith("ERR") else "model"] += 1
+        if c.meta.get("snapshot_problems"):
+            n_bad += 1
+            run.fail("impl", "C01/operands-not-those-of-the-call", c.meta["snapshot_problems"][0][:300], {"case": B.describe(c)})
         if c.model_proto is None:
             rank_unknown = isinstance(c.exc, ValueError) and "does not specify the shape" in str(c.exc)
             if c.meta.get("legal") and not rank_unknown:
